@@ -70,6 +70,20 @@ def main(tier):
             continue
         lb_shell[n] = shells[nm[0][:2]]
 
+    # the members are NAMED by Siegbahn aliases (LB1..LB17, KA1.., LA1..): each alias must denote the transition the nomenclature assigns to it,
+    # or "the members of L-beta" a user addresses through the header are other lines than the ones the group averages
+    nalias = 0
+    for sieg, iu in refdata.SIEGBAHN.items():
+        a, b = lines.get(sieg), lines.get(iu)
+        if a is None or b is None:
+            continue
+        nalias += 1
+        if a != b:
+            ck.violation('c10:alias:%s_LINE:denotes-another-transition' % sieg, '%s_LINE has the value %d (%s) but the Siegbahn line %s is the transition %s (value %d)' % (
+                sieg, a, '/'.join(iupac_of_value.get(a, [])) or '?', sieg, iu, b), dict(macro=sieg + '_LINE', value=int(a), iupac=iu + '_LINE', iupac_value=int(b)))
+    if nalias < 20:
+        raise common.Inconclusive('only %d Siegbahn aliases could be compared with their IUPAC names' % nalias)
+
     # ---- member values through the public single-line calls ---------------------------------------------------
     res = L.multi([('LineEnergy', Zs[:, None], lvals[None, :]), ('RadRate', Zs[:, None], lvals[None, :]),
                    ('EdgeEnergy', Zs[:, None], np.arange(4)[None, :])])
